@@ -102,9 +102,14 @@ def run(c):
                     cs["p"][2], cs["d"][0], cs["d"][1], cs["d"][2], tau_phys, " ".join(repr(k / (2.0 * ps)) for k in cs["kap"])))
         o = os.path.join(rd, "single_%d.ndjson" % i)
         rc, out = vlib.sh("%s single %s %s" % (exe, f, o), timeout=900)
-        if rc != 0:
-            raise vlib.Inconclusive("ray harness failed rc=%d %s" % (rc, out[-400:]))
-        return ch, res, vlib.read_ndjson(o), r
+        got = read_partial(o)
+        if rc != 0 and len(got) < len(ch):
+            # the real interact() crashed or never returned on the first case without an answer
+            cs = ch[len(got)]
+            c.violation("ray:crash-or-hang:frame=%s:class=%d" % ("dyadic" if cs["frame"].startswith("dyadic") else "generic", cs["cls"]),
+                        "DensitySubGrid::interact did not return for %s (harness rc=%d: 124 = time limit, 139 = segmentation fault, "
+                        "134 = abort) %s" % (cs, rc, out[-200:]), {"case": cs})
+        return ch, res, got, r
 
     with ThreadPoolExecutor(max_workers=8) as ex:
         results = list(ex.map(job, enumerate(chunks)))
@@ -191,6 +196,21 @@ def compare(c, cs, rs, g):
         if any(gs[k] != 0 and gs[k] != rs["exit"][k] for k in range(3)) or gs == (0, 0, 0):
             return c.violation("ray:exitclass:%s:want=%d:got=%d" % (sig, want, g["out"]),
                                "leaves through class %d which is not part of the crossed feature %d (%s)" % (g["out"], want, cs), info)
+
+
+def read_partial(path):
+    """Answers of the harness up to the first missing / truncated line."""
+    out = []
+    if os.path.exists(path):
+        try:
+            out = vlib.read_ndjson(path)
+        except ValueError:
+            for line in open(path):
+                try:
+                    out += vlib.read_ndjson_line(line)
+                except ValueError:
+                    break
+    return out
 
 
 def full_lengths(cs):
